@@ -182,6 +182,13 @@ def havoc_modifies(interp, c, bound):
         obj = _modified_object(interp, bound, path)
         if obj is None:
             continue
+        from .api import HavocBy
+        if isinstance(attrs, HavocBy):
+            # the object becomes arbitrary in its own way (e.g. by an environment step that is known to
+            # cover every state the postcondition allows)
+            interp.note_heap_write(obj, None)
+            attrs.fn(interp, obj)
+            continue
         for attr, ty in attrs.items():
             interp.note_heap_write(obj, attr)
             v = ty.make(interp, 'post.%s.%s' % (path, attr)) if isinstance(ty, Ty) else ty
@@ -224,6 +231,9 @@ def check_frame(interp, c, snaps, fname):
     st = interp.st
     for path, (obj, before) in snaps.items():
         allowed = c.modifies.get(path, {})
+        from .api import HavocBy
+        if isinstance(allowed, HavocBy):
+            continue
         after = obj.__dict__
         for k in sorted(set(before) | set(after)):
             if k in allowed:
@@ -376,7 +386,7 @@ def _run_path(interp, reg, c, func, rep):
             reg.ghost_env.update(extra)
     env = _clause_env(args, ghosts, {'trace': st.trace, 'ghost': st.ghost})
     if c.requires is not None:
-        st.assume(interp.truth(_call_pred(interp, c.requires, env, assumed=True)))
+        st.assume(interp.truth(_call_pred(interp, c.requires, env, assumed='aligned')))
     if st.check() == z3.unsat:
         raise PathAbort()
     old = None
